@@ -19,7 +19,7 @@ LEVEL_TEXT = ('Integrator/grid invariance needs the numerical solution and is no
               'non-dimensionalise then re-dimensionalise is the identity on all five arrays and four scalars; the solution-type layout is written and read with the same index polynomial.')
 LEVEL_NOTE = ('Trusted: front-end, interpreter, the assignment of physical dimensions to inputs (radius m, density kg m-3, moduli Pa, gravity m s-2, frequency s-1, G m3 kg-1 s-2; y1,y3 s2 m-1; y2,y4 kg m-3; y5 1; y6,y7 m-1). '
               'The absolute integration tolerance `atol` is a dimensional number applied to non-dimensional and dimensional solves alike (assumption, affects accuracy only).')
-EXPLANATION = 'R03.1 non-dim o re-dim == identity and conversion factors carry the right dimension; R03.2 scaling covariance of all kernels; R03.3 solution layout agreement (writer collapse for every layer kind, readers by interpretation); R03.4 sibling unit system; R03.6 every requested type gets the Love numbers of its own assembled solution; R03.7 dimensional homogeneity of the arithmetic of the driver itself (unit inference); R03.8 the conversion helpers return the same values whichever planet was converted before (no stale module-level cache); R03.5 reciprocity: W(tidal, loading) conserved in every layer kind, continuous across interfaces, and equal to (2l+1)R/(4 pi G) [k_t - h_t - k_load] at the surface.'
+EXPLANATION = 'R03.1 non-dim o re-dim == identity and conversion factors carry the right dimension; R03.2 scaling covariance of all kernels; R03.3 solution layout agreement (writer collapse for every layer kind, readers by interpretation); R03.4 sibling unit system; R03.6 every requested type gets the Love numbers of its own assembled solution; R03.7 dimensional homogeneity of the arithmetic of the driver itself (unit inference); R03.8 the conversion helpers return the same values whichever planet was converted before (no stale module-level cache); R03.9 a type requested alone returns what it returns together with the others (5 whole-driver runs per structure); R03.10 y3 of dynamic liquid layers in the returned solution obeys the elimination formula with the dimensional frequency, non-dimensionalised or not; R03.11 no loop index narrower than its bound (finer grids); R03.5 reciprocity: W(tidal, loading) conserved in every layer kind, continuous across interfaces, and equal to (2l+1)R/(4 pi G) [k_t - h_t - k_load] at the surface.'
 
 
 def run(chk):
@@ -45,6 +45,14 @@ def run(chk):
     #      non-dimensionalised)
     from . import solver_whole as SW
     SW.guarded(chk, 'C03', lambda: SW.assembled(chk, repo, None, None, 'R03.6'))
+    SW.guarded(chk, 'C03', lambda: SW.alone_vs_together(chk, repo, 'R03.9'))
+    SW.guarded(chk, 'C03', lambda: SW.liquid_y3(chk, repo, 'R03.10'))
+    chk.floor('R03.9', 6); chk.floor('R03.10', 6)
+    # ---- R03.11 "a finer radial grid": no loop index of the solve is narrower than the bound it runs to (a counter that wraps at 256 slices changes the answer on fine grids only)
+    from .common import index_width_lint
+    index_width_lint(chk, repo, 'R03.11', ['TidalPy/RadialSolver/**/*.pyx', 'TidalPy/utilities/dimensions/*.pyx'])
+    chk.floor('R03.11', 30)
+    love_readers(chk, repo)
     # ---- R03.7 the driver's own arithmetic is dimensionally homogeneous (it runs the same statements on dimensional and on non-dimensionalised inputs)
     from .common import unit_lint, need_func
     ms_ = repo.by_path('TidalPy/RadialSolver/solver.pyx')
@@ -457,6 +465,115 @@ def layout(chk, repo, d, eq):
     tot = [n for n in ast.walk(mm['__init__']) if isinstance(n, ast.Assign) and ast.unparse(n.targets[0]) == 'self.total_size'] if '__init__' in mm else []
     chk.ob('R03.3', 'solution buffer holds MAX_NUM_Y * num_slices * num_ytypes values', bool(tot) and mentions(tot[0].value, 'MAX_NUM_Y', 'num_slices', 'num_ytypes') and all(isinstance(o_, ast.Mult) for o_ in
            [x.op for x in ast.walk(tot[0].value) if isinstance(x, ast.BinOp)]), 'size expression differs', ms.where(tot[0]) if tot else ms.rel(), method='AST structure')
+
+
+# ------------------------------------------------------------------------------------------------ R03.3 readers of the Love-number buffer
+class _ND:
+    """a tiny model of a numpy array of distinct tokens: reshape, transpose, basic slicing and indexing -- enough to evaluate the accessors of the solution object"""
+    def __init__(self, flat, shape): self.flat = list(flat); self.shape = tuple(shape)
+
+    def reshape(self, *shape):
+        shape = tuple(shape[0]) if len(shape) == 1 and isinstance(shape[0], (tuple, list)) else tuple(shape)
+        n = 1
+        for s_ in shape: n *= s_
+        if n != len(self.flat): raise ValueError(f'cannot reshape array of size {len(self.flat)} into shape {shape}')
+        return _ND(self.flat, shape)
+
+    def nested(self):
+        def build(off, shape):
+            if not shape: return self.flat[off]
+            step = 1
+            for s_ in shape[1:]: step *= s_
+            return [build(off + i * step, shape[1:]) for i in range(shape[0])]
+        return build(0, self.shape)
+
+    @property
+    def T(self):
+        if len(self.shape) != 2: return self
+        nst = self.nested()
+        rows, cols = self.shape
+        return _ND([nst[i][j] for j in range(cols) for i in range(rows)], (cols, rows))
+
+    def __getitem__(self, key):
+        nst = self.nested()
+        sub = nst[key]
+        def shape_of(x): return (len(x),) + shape_of(x[0]) if isinstance(x, list) and x else ((0,) if isinstance(x, list) else ())
+        def flat_of(x): return [z for y in x for z in flat_of(y)] if isinstance(x, list) else [x]
+        return _ND(flat_of(sub), shape_of(sub)) if isinstance(sub, list) else sub
+
+
+def love_readers(chk, repo):
+    """`.love`, `.k`, `.h`, `.l` of the solution object read the buffer the driver fills at 3 * type + (0, 1, 2): evaluated on a buffer of distinct tokens for 1, 2 and 3
+    requested types, love[t] must be (k_t, h_t, l_t) and k[t], h[t], l[t] the three entries of type t."""
+    ms = repo.by_path('TidalPy/RadialSolver/solver.pyx')
+    cls = need_class(ms, 'RadialSolverSolution')
+    mm = methods(cls)
+
+    def ev(e, env):
+        if isinstance(e, ast.Constant): return e.value
+        if isinstance(e, ast.Name):
+            if e.id in env: return env[e.id]
+            raise AnalysisError(f'accessor reads an unknown name {e.id}')
+        if isinstance(e, ast.Tuple): return tuple(ev(x, env) for x in e.elts)
+        if isinstance(e, ast.BinOp):
+            a, b = ev(e.left, env), ev(e.right, env)
+            return {ast.Add: lambda: a + b, ast.Sub: lambda: a - b, ast.Mult: lambda: a * b, ast.FloorDiv: lambda: a // b}[type(e.op)]()
+        if isinstance(e, ast.Attribute):
+            if isinstance(e.value, ast.Name) and e.value.id == 'self':
+                if e.attr in env['self']: return env['self'][e.attr]
+                raise AnalysisError(f'accessor reads self.{e.attr}, which the model of the solution object does not have')
+            if isinstance(e.value, ast.Name) and e.value.id == 'np': return ('np', e.attr)
+            base = ev(e.value, env)
+            if e.attr == 'T': return base.T
+            return (base, e.attr)
+        if isinstance(e, ast.Slice):
+            return slice(ev(e.lower, env) if e.lower else None, ev(e.upper, env) if e.upper else None, ev(e.step, env) if e.step else None)
+        if isinstance(e, ast.Subscript):
+            return ev(e.value, env)[ev(e.slice, env)]
+        if isinstance(e, ast.Call):
+            f = ev(e.func, env)
+            args = [ev(a_, env) for a_ in e.args]
+            if isinstance(f, tuple) and f[0] == 'np' and f[1] in ('ascontiguousarray', 'asarray', 'array', 'copy'): return args[0]
+            if isinstance(f, tuple) and isinstance(f[0], _ND) and f[1] == 'reshape': return f[0].reshape(*args)
+            if isinstance(f, tuple) and isinstance(f[0], _ND) and f[1] in ('copy', 'view'): return f[0]
+            raise AnalysisError(f'accessor calls {ast.unparse(e.func)}, which is not modelled')
+        raise AnalysisError(f'accessor uses {type(e).__name__}, which is not modelled')
+
+    def returned(fn, env):
+        """value of the `return` reached when self.success is true"""
+        def walk(body):
+            for st in body:
+                if isinstance(st, ast.Return): return st.value
+                if isinstance(st, ast.If):
+                    t = ast.unparse(st.test)
+                    if t == 'self.success': return walk(st.body)
+                    if t in ('not self.success', 'self.success is False'): r_ = walk(st.orelse); 
+                    else: r_ = None
+                    if r_ is not None: return r_
+            return None
+        e = walk(fn.body)
+        if e is None: raise AnalysisError(f'{fn.name}: no return on the successful path')
+        return ev(e, env)
+    for name in ('love', 'k', 'h', 'l'):
+        if name not in mm:
+            raise AnalysisError(f'RadialSolverSolution.{name} vanished')
+    for nyt in (1, 2, 3):
+        toks = [f'{"khl"[i % 3]}[type {i // 3}]' for i in range(3 * nyt)]       # what the driver stores at 3 * type + i
+        env = {'self': {'complex_love_view': _ND(toks, (3 * nyt,)), 'num_ytypes': nyt, 'success': True}, 'MAX_NUM_Y': 6}
+        bad = []
+        try:
+            lv = returned(mm['love'], env)
+            got = lv.nested() if isinstance(lv, _ND) else None
+            want = [[f'{c}[type {t}]' for c in 'khl'] for t in range(nyt)]
+            if got != want: bad.append(f'.love is {got}, expected one row (k, h, l) per requested type')
+            for j, nm in enumerate('khl'):
+                v = returned(mm[nm], env)
+                g1 = v.nested() if isinstance(v, _ND) else None
+                if g1 != [f'{nm}[type {t}]' for t in range(nyt)]: bad.append(f'.{nm} is {g1}')
+        except (ValueError, IndexError, TypeError) as ex:
+            bad.append(f'the accessor raises {type(ex).__name__}: {ex}')
+        chk.ob('R03.3', f'readers .love / .k / .h / .l with {nyt} requested type(s): love[t] == (k, h, l) of type t and k[t], h[t], l[t] are the entries 3t, 3t+1, 3t+2 the driver fills', not bad, '; '.join(bad[:3]),
+               ms.where(mm['love']), key=f'R03.3|love-readers|{nyt}', method='accessors evaluated on a buffer of distinct tokens (reshape / transpose / slicing modelled)')
 
 
 # ------------------------------------------------------------------------------------------------ R03.5 reciprocity (Saito-Molodensky)
